@@ -52,7 +52,7 @@ def run(tier):
     comp = tzpipe.compile_source(tzpipe.write_input_dir(tzsrc.render_long(src), vlib.scratch() / "in"), "extended", 2000, 2050)
     rng = random.Random(seed)
     names = sorted(comp.zone_infos)
-    pick = names if tier != "quick" else rng.sample(names, 96)
+    pick = names if tier != "quick" else sorted(set(rng.sample(names, 96)) | {n for n in names if n in ("Asia/Khandyga", "Asia/Dhaka", "Africa/Sao_Tome", "Pacific/Apia")})     # + zones whose offset changes at a New Year
     items = [{"mode": "history", "zone_infos": sh, "segments": {}, "start_year": 2000, "until_year": 2050, "seed": seed + i,
               "steps": 80 if tier == "quick" else 400}
              for i, sh in enumerate(c03lib.shard_dict({n: comp.zone_infos[n] for n in pick}, N))]
@@ -65,6 +65,7 @@ def run(tier):
     tot["python.far_queries"] = m["counters"].get("far_queries", 0)
     tot["python.queries_a_fresh_instance_fails"] = m["counters"].get("fresh_failed", 0)
     tot["python.history_local_steps"] = m["counters"].get("history_local_steps", 0)
+    tot["python.new_year_pairs"] = m["counters"].get("new_year_pairs", 0)
     if tot["python.history_steps"] < 1000 or tot["python.queries_a_fresh_instance_fails"] < 50:
         v.inconclusive_because("python history steps too low (or no failing query reached): %r" % {k: n for k, n in tot.items() if k.startswith("python.")})
     if tot.get("pairs.hist.pair_zones", 0) < 655 or tot.get("hist.shared_steps", 0) < 100000 or tot.get("hist.manager_steps", 0) < 100000:
